@@ -368,11 +368,21 @@ def run(ch, idx, tier):
                     compare(before, after, 0.0, "zero_uncertainty_sampling_changes_behaviour", "ParameterSet.sample", {})
                 elif op == "edit_yfactor":
                     pars = [p for p in parset.pars.values() if p.ts and p.name in fw.pars.index]
+                    if ch.flip("edit_yfactor.connection", 0.25):
+                        # scale factors of transfer / interaction rows (keyed by source population) are calibration too
+                        conn = [p for d_ in list(parset.transfers.values()) + list(parset.interactions.values()) for p in d_.values() if p.y_factor]
+                        pars = conn or pars
                     p = pars[ch.choose("edit_yfactor.par", len(pars))]
                     pop = list(p.y_factor.keys())[ch.choose("edit_yfactor.pop", len(p.y_factor))]
-                    p.y_factor[pop] = ch.uniform("edit_yfactor.val", 0.8, 1.25)
-                    if ch.flip("edit_yfactor.meta", 0.3):
-                        p.meta_y_factor = ch.uniform("edit_yfactor.metaval", 0.9, 1.1)
+
+                    def _factor(label, lo, hi):
+                        # switching a quantity off (0) and exact round numbers are ordinary calibration values
+                        k_ = ch.choose(label + ".kind", 4)
+                        return [None, 0.0, 1.0, 2.0][k_] if k_ else ch.uniform(label, lo, hi)
+
+                    p.y_factor[pop] = _factor("edit_yfactor.val", 0.8, 1.25)
+                    if ch.flip("edit_yfactor.meta", 0.4):
+                        p.meta_y_factor = _factor("edit_yfactor.metaval", 0.9, 1.1)
                     op = f"edit_yfactor({p.name!r},{pop!r})"
                 elif op == "load_calibration":
                     other = parset.copy("other")
@@ -381,6 +391,8 @@ def run(ch, idx, tier):
                         p = pars[ch.choose(f"load_calibration.par[{j}]", len(pars))]
                         for pop in p.y_factor:
                             p.y_factor[pop] = ch.uniform("load_calibration.val", 0.8, 1.25)
+                        if ch.flip(f"load_calibration.meta[{j}]", 0.4):
+                            p.meta_y_factor = [0.0, 0.5, 1.0, 1.5][ch.choose(f"load_calibration.metaval[{j}]", 4)]
                     parset.load_calibration(other.calibration_spreadsheet())
                     d = _content_eq(_yf(parset), _yf(other), 1e-15)
                     if d:
